@@ -176,7 +176,11 @@ var c06FwdShapes = []c06Shape{
 
 type c06Target struct{ Method, Path string }
 
-var c06Targets = []c06Target{{"GET", "/r"}, {"POST", "/r"}, {"GET", "/open"}}
+// /r is declared for GET and POST only: the other methods have no declaration to reach, so nothing may run for them
+// (a fallback from HEAD or OPTIONS to the GET route has to carry the GET route's auth chain)
+var c06Targets = []c06Target{{"GET", "/r"}, {"POST", "/r"}, {"GET", "/open"}, {"HEAD", "/r"}, {"OPTIONS", "/r"}, {"PUT", "/r"}}
+
+func c06Declared(method string) bool { return method == "GET" || method == "POST" }
 
 func c06ShapeByName(set []c06Shape, n string) c06Shape {
 	for _, s := range set {
@@ -393,6 +397,26 @@ func c06Judge(cfg c06Cfg, r c06Req, req *http.Request, o c06Obs) string {
 		return "panic"
 	}
 	d := c06DeclByName(cfg.Decl)
+	if r.Path == "/r" && !c06Declared(r.Method) {
+		// no declaration for this method: the body of /r may run only under the conditions of its auth declaration
+		// (a server may answer HEAD/OPTIONS from the GET route, but not around its auth), and /open's never
+		if o.Open {
+			return "wrong-body-ran"
+		}
+		if d.Type == "" || !o.Ran {
+			return ""
+		}
+		creds := c06Creds(d.Type, cfg)
+		for _, v := range append(append([]string{}, req.Header.Values("Authorization")...), req.Header.Values("X-Api-Key")...) {
+			if creds[c06Carried(v)] {
+				return ""
+			}
+		}
+		if len(creds) == 0 {
+			return "admitted-with-no-credential-source-configured"
+		}
+		return "admitted-without-configured-credential"
+	}
 	if r.Path == "/open" || d.Type == "" {
 		// routes without a declaration are unaffected: same answer under every
 		// configuration and header shape
